@@ -90,92 +90,7 @@ SIGS = {
 Env, Case, compare_case, FLAG_NAMES = ctl_db.Env, ctl_db.Case, ctl_db.compare_case, ctl_db.FLAG_NAMES
 
 
-# ------------------------------------------------------------------------------------------------- probes
-def probe_flags(ctx, env):
-    """Which of the six behaviours does the working tree have?  Each probe is the replay of a `refuted_*` witness."""
-    from redun import task
-    flags = {}
-    I = ctl_db.Interner()
-
-    def two_level(ns):
-        return ctl_db.Program(2, [[(1, 0)], []], [True, False], [(0, 1)], ns=ns)
-
-    # atomicValue / atomicCallNode: look at every durable state of one clean run
-    prog = two_level("gcp")
-    p = env.new_db()
-    s = ctl_db.new_scheduler(p)
-    tap = ctl_db.CommitTap(s.backend, I)
-    ctl_db.run_program(s, prog)
-    ctl_db.close_scheduler(s)
-    flags["atomicValue"] = all(all(h in d["tasks"] for (h, k) in d["values"] if k == "task") for d in tap.dumps)
-    flags["atomicCallNode"] = all(all(any(r[0] == n[0] for r in d["subtree"]) for n in d["nodes"]) for d in tap.dumps)
-    # emptyNotCurrent / healSubtree: transfer, then look up / re-run
-    p2 = env.new_db()
-    c = Case(env, prog, dict.fromkeys(FLAG_NAMES, False), "probe")
-    c.repos = {0: p, 1: p2}
-    c.transfer(0, 1)
-    s2 = ctl_db.new_scheduler(p2)
-    main = prog.define()
-    t0 = prog.tasks[0]
-    from redun.backends.db import CallNode
-    node = s2.backend.session.query(CallNode).filter_by(task_hash=t0.hash).first()
-    hit = s2.backend._get_call_node(t0.hash, node.args_hash, s2.task_registry.task_hashes)
-    flags["emptyNotCurrent"] = hit is None
-    s2.run(main())
-    ctl_db.close_scheduler(s2)
-    d2 = ctl_db.dump_db(p2, I)
-    flags["healSubtree"] = all(any(r[0] == n[0] for r in d2["subtree"]) for n in d2["nodes"])
-    # cseSubtreeFromDb: A(shallow) -> f -> g ; B(shallow) -> f (CSE) ; rows of B must contain g
-    ver = {"g": 1}
-
-    def define():
-        @task(name="g", namespace="gcq", version=str(ver["g"]))
-        def g(x):
-            return x + 100 * ver["g"]
-
-        @task(name="f", namespace="gcq", version="1")
-        def f(x):
-            return g(x)
-
-        @task(name="w", namespace="gcq", version="1")
-        def w(x):
-            return 0
-
-        @task(name="A", namespace="gcq", version="1", check_valid="shallow")
-        def A(x):
-            return f(x)
-
-        @task(name="B", namespace="gcq", version="1", check_valid="shallow")
-        def B(x, dep):
-            return f(x)
-
-        @task(name="main", namespace="gcq", version="1")
-        def main():
-            a = A(1)
-            return [a, B(1, w(a))]
-        return main
-    p3 = env.new_db()
-    s3 = ctl_db.new_scheduler(p3)
-    r1 = s3.run(define()())
-    ctl_db.close_scheduler(s3)
-    ver["g"] = 2
-    s3 = ctl_db.new_scheduler(p3)
-    r2 = s3.run(define()())
-    ctl_db.close_scheduler(s3)
-    flags["cseSubtreeFromDb"] = (r2 == [201, 201])
-    twin_case = dict(program="A(shallow)->f->g; B(shallow)->f served by CSE; edit g", run1=r1, run2=r2, expected=[201, 201])
-    # execKeep: transient failure of the commit of the root job's record_job_start
-    p4 = env.new_db()
-    prog4 = two_level("gcr")
-    # writing commit of the root job start = 2nd (repaired record_value) or 3rd (current)
-    k = 2 if flags["atomicValue"] else 3
-    s4 = ctl_db.new_scheduler(p4)
-    ft = ctl_db.FaultTap(s4.backend, k)
-    r4 = ctl_db.run_program(s4, prog4)
-    ft.remove()
-    ctl_db.close_scheduler(s4)
-    flags["execKeep"] = (r4 == prog4.expected_main())
-    return flags, twin_case
+probe_flags = ctl_db.probe_flags
 
 
 def witness_cases(ctx, env, flags):
